@@ -145,6 +145,24 @@ func (h httpFront) DialStream(ctx context.Context, addr conn.Addr, payload []byt
 	return c, nil
 }
 
+// probeFront is a client that does not speak Shadowsocks at all: it sends an HTTP-looking probe (long enough
+// for the server to try to open it as a request header) followed by the payload.  An SS2022 server with
+// unsafeFallbackAddress must hand such a connection, every byte intact, to the fallback address.
+type probeFront struct{ inner innerClient }
+
+var fallbackProbe = []byte("GET /index.html HTTP/1.1\r\nHost: fallback.example\r\nUser-Agent: probe/1.0\r\nAccept: */*\r\n\r\n")
+
+func (p probeFront) NewStreamDialer() (netio.StreamDialer, netio.StreamDialerInfo) {
+	return p, netio.StreamDialerInfo{Name: "probe", NativeInitialPayload: true}
+}
+
+func (p probeFront) DialStream(ctx context.Context, addr conn.Addr, payload []byte) (netio.Conn, error) {
+	if _, err := p.inner.c.Write(append(append([]byte(nil), fallbackProbe...), payload...)); err != nil {
+		return nil, err
+	}
+	return p.inner.c, nil
+}
+
 type collector struct {
 	stats.Collector
 	calls []string
@@ -155,9 +173,10 @@ func (c *collector) CollectTCPSession(u string, down, up uint64) {
 }
 
 var (
-	tunnelTarget = conn.AddrFromIPPort(netip.MustParseAddrPort("192.0.2.7:443"))
-	domainTarget = conn.MustAddrFromDomainPort("example.test", 8080)
-	psk          = []byte("0123456789abcdef")
+	tunnelTarget   = conn.AddrFromIPPort(netip.MustParseAddrPort("192.0.2.7:443"))
+	domainTarget   = conn.MustAddrFromDomainPort("example.test", 8080)
+	fallbackTarget = conn.AddrFromIPPort(netip.MustParseAddrPort("192.0.2.80:80"))
+	psk            = []byte("0123456789abcdef")
 )
 
 func must[T any](v T, err error) T {
@@ -203,6 +222,9 @@ func Scenario(param string) vsched.Scenario {
 			if sp.Target == "domain" && sp.Server != "tunnel" {
 				want = domainTarget
 			}
+			if sp.Server == "ss2022fb" {
+				want = fallbackTarget
+			}
 			var server netio.StreamServer
 			cEnd, rEnd = vnet.Pair("client", "relay<client", 1<<16)
 			if sp.Payload == "eofDataSameRead" {
@@ -226,6 +248,11 @@ func Scenario(param string) vsched.Scenario {
 			case "ss2022":
 				server = (&ss2022.StreamServerConfig{UserCipherConfig: must(ss2022.NewUserCipherConfig(psk, false))}).NewStreamServer()
 				front = (&ss2022.StreamClientConfig{Name: "f", InnerClient: inner, Addr: tunnelTarget, CipherConfig: must(ss2022.NewClientCipherConfig(psk, nil, false))}).NewStreamClient()
+			}
+			if sp.Server == "ss2022fb" {
+				server = (&ss2022.StreamServerConfig{UserCipherConfig: must(ss2022.NewUserCipherConfig(psk, false)), UnsafeFallbackAddr: fallbackTarget}).NewStreamServer()
+				front = probeFront{inner}
+				clientSent = append(clientSent, fallbackProbe...)
 			}
 			rcfg := router.Config{DefaultTCPClientName: "stub"}
 			if sp.Dial == "reject" {
@@ -581,6 +608,16 @@ func Family(thorough bool) []string {
 				out = append(out, Spec{sv, native, false, "early", "ok", "clientFirst", "domain", cl}.String())
 			}
 		}
+	}
+	// an SS2022 server with unsafeFallbackAddress: a client that does not speak the protocol is connected to the
+	// fallback destination with everything it sent, and relayed like any other connection
+	for _, native := range []bool{false, true} {
+		for _, pay := range []string{"none", "early"} {
+			for _, order := range []string{"clientFirst", "targetFirst"} {
+				out = append(out, Spec{"ss2022fb", native, false, pay, "ok", order, "ip", ""}.String())
+			}
+		}
+		out = append(out, Spec{"ss2022fb", native, false, "early", "refused", "clientFirst", "ip", ""}.String())
 	}
 	sort.Strings(out)
 	return out
